@@ -43,7 +43,16 @@ TYPES = {
     "fn": ["{v} = fn() -> int {{\n\treturn {w}\n}}", ("6", "3")],
     "obj": ["{v} = {w}", ("K()", "K()")],
 }
-PRE = KCLASS + "sopt = fn(s: str) -> str? {\n\treturn s\n}\n"
+# the same kinds reached through a type ALIAS: every rule that asks "what kind of type is this?" must look through the name
+ALIASES = {"AlInt": "int", "AlFloat": "float", "AlStr": "str", "AlBool": "bool", "AlList": "[int...]", "AlMap": "map[str,int]", "AlMapI": "map[int,str]", "AlFn": "fn()", "AlObj": "K", "AlAl": "AlMap"}
+ALIAS_TYPES = {
+    "alias-int": ["{v}: AlInt = {w}", ("6", "3")], "alias-float": ["{v}: AlFloat = {w}", ("6.5", "2.5")], "alias-str": ["{v}: AlStr = {w}", ("\"ab\"", "\"c\"")],
+    "alias-bool": ["{v}: AlBool = {w}", ("true", "false")], "alias-list": ["{v}: AlList = {w}", ("[1, 2]", "[3]")],
+    "alias-map": ["{v}: AlMap = map[str, int] {w}", ("{\"k\": 1}", "{\"j\": 2}")], "alias-map-int-keys": ["{v}: AlMapI = map[int, str] {w}", ("{0: \"z\", 7: \"n\"}", "{0: \"y\"}")],
+    "alias-of-alias-map": ["{v}: AlAl = map[str, int] {w}", ("{\"k\": 1}", "{\"j\": 2}")],
+    "alias-fn": ["{v}: AlFn = fn() {{\n\tprint {w}\n}}", ("6", "3")], "alias-obj": ["{v}: AlObj = {w}", ("K()", "K()")], "alias-optint": ["{v}: AlInt? = {w}", ("6", "3")],
+}
+PRE = KCLASS + "sopt = fn(s: str) -> str? {\n\treturn s\n}\n" + "".join("type %s %s\n" % kv for kv in ALIASES.items())
 BINOPS = ["+", "-", "*", "/", "%", "<", "<=", ">", ">=", "==", "!=", "&&", "||", "^", "&", "|", "xor", "<<", ">>", "is"]
 OPASSIGN = ["+=", "-=", "*=", "/=", "%="]
 
@@ -65,6 +74,12 @@ def kind_of_type_text(t):
         t = t[:-1].strip()
         if t.startswith("(") and t.endswith(")"):
             t = t[1:-1]
+    n_alias = 0
+    while t in ALIASES and n_alias < 4:
+        t = ALIASES[t]
+        n_alias += 1
+        if t.endswith("?"):
+            opt, t = True, t[:-1].strip()
     if t in ("int", "bigint", "float", "byte", "bool", "str"):
         k = t
     elif t == "Num":
@@ -131,7 +146,7 @@ def probe(expr):
 
 
 def decl(t, v, which):
-    tmpl, ws = TYPES[t]
+    tmpl, ws = TYPES[t] if t in TYPES else ALIAS_TYPES[t]
     return tmpl.format(v=v, w=ws[which])
 
 
@@ -155,6 +170,32 @@ def cell_programs():
         out.append(("call|%s" % t, PRE + decl(t, "a", 0) + "\nprint \"@run\"\n" + probe("a()")))
         out.append(("cond|%s" % t, PRE + decl(t, "a", 0) + "\nprint \"@run\"\nif a {\n\tprint \"then\"\n}\n"))
         out.append(("loop-bound|%s" % t, PRE + decl(t, "a", 0) + "\nprint \"@run\"\nfrom 0 to a {\n}\nfrom 0 to 4 step a {\n\tbreak\n}\n"))
+    # values whose static type is spelled through an alias: every use that depends on the KIND of the type (index by position and by
+    # key, element / entry write, call, member call, condition, loop bound, argument of a function typed with the alias or with the
+    # type it stands for, either side of every operator against every other type)
+    for t in ALIAS_TYPES:
+        uses = ["-a", "!a", "a[0]", "a[7]", "a[\"k\"]", "a()", "a.len()", "a.n", "a.contains_key(\"k\")", "a.contains_key(0)", "a.push(1)", "a.to_str()", "get a", "(a) or 1", "a == a", "typeof a"]
+        for u in uses:
+            if u == "a[7]" and t != "alias-map-int-keys":
+                continue          # (only that map holds a key 7: on a list or a string the index would be out of range, an allowed failure)
+            out.append(("alias-use|%s|%s" % (u, t), PRE + decl(t, "a", 0) + "\nprint \"@run\"\n" + probe(u)))
+        for w in ("a[0] = a[0]", "a[0] = 1", "a[0] = \"s\"", "a[\"k\"] = 1", "a[9] = \"s\"", "a[0] += 1", "a[\"k\"] += 1", "a.n = 2", "a += 1", "a = a"):
+            if w == "a[9] = \"s\"" and t != "alias-map-int-keys":
+                continue
+            out.append(("alias-write|%s|%s" % (w, t), PRE + decl(t, "a", 0) + "\nprint \"@run\"\n" + w + "\n" + probe("a")))
+        out.append(("alias-cond|%s" % t, PRE + decl(t, "a", 0) + "\nprint \"@run\"\nif a {\n\tprint \"then\"\n}\nwhile a {\n\tbreak\n}\n"))
+        out.append(("alias-loop-bound|%s" % t, PRE + decl(t, "a", 0) + "\nprint \"@run\"\nfrom 0 to a {\n}\nfrom 0 to 4 step a {\n\tbreak\n}\n"))
+        an = ALIAS_TYPES[t][0].split(": ")[1].split(" ")[0]
+        base = ALIASES[an.rstrip("?")] if ALIASES[an.rstrip("?")] not in ALIASES else ALIASES[ALIASES[an.rstrip("?")]]
+        base += "?" if an.endswith("?") else ""
+        for pt in (an, base):
+            out.append(("alias-argument|%s|%s" % (pt, t), PRE + decl(t, "a", 0) + "\ntk = fn(p: %s) -> %s {\n\treturn p\n}\nprint \"@run\"\n" % (pt, pt) + probe("tk(a)")))
+        for rt in TYPES:
+            for op in BINOPS:
+                out.append(("alias-cell|%s|%s|%s" % (op, t, rt), PRE + decl(t, "a", 0) + "\n" + decl(rt, "b", 1) + "\nprint \"@run\"\n" + probe("a %s b" % op)))
+                out.append(("alias-cell|%s|%s|%s" % (op, rt, t), PRE + decl(rt, "a", 0) + "\n" + decl(t, "b", 1) + "\nprint \"@run\"\n" + probe("a %s b" % op)))
+        for op in OPASSIGN:
+            out.append(("alias-cell|%s|%s|%s" % (op, t, t), PRE + decl(t, "a", 0) + "\n" + decl(t, "b", 1) + "\nprint \"@run\"\na %s b\n" % op + probe("a")))
     # from-loop counters: the counter's static type against the kind it holds in EVERY iteration (first one included)
     NUMS = {"int": ("1", "4", "1"), "bigint": ("B1", "B4", "B1"), "float": ("1.5", "4.5", "0.5"), "byte": ("0b1", "0b100", "0b1")}
     for sk, (lo, hi, _) in NUMS.items():
@@ -414,14 +455,27 @@ def check(case):
     through = any(p in ("optint", "optint-builtin", "optstr-builtin", "list", "fixed", "map", "fn", "obj") for p in parts[2:]) or parts[0] in ("cat", "builtin")
     r = CaseResult(nt_keys=[name] if (not rejected and (mixed or through)) else [], labels=["family=" + parts[0], "verdict=" + ("rejected" if rejected else "accepted")],
                    sample={"cell": name, "verdict": "rejected" if rejected else "accepted", "program_tail": src[-220:]})
+    if name.startswith("control|") and (rejected or run.klass != "ok"):
+        # the shared prelude (class, helper, aliases) plus one declaration of every operand type must compile and run: if it does
+        # not, every cell is "rejected" for a reason that has nothing to do with its operator, and the matrix would be vacuous
+        r.failure = fail("control program was not accepted and run: harness problem, not a violation\n%s\n%s" % (src[-600:], run.stdout[-400:]), "C02:control", sc, case={"cell": name})
+        r.failure["inconclusive"] = True
+        return r
     if fails:
         sym = fails[0].split(":")[0]
         r.failure = fail("%s: %s\n%s" % (name, "; ".join(fails), src[-700:]), "C02:%s:%s" % (sym, name), sc, case={"cell": name})
     return r
 
 
+def control_programs():
+    out = [("control|prelude", PRE + "print \"@run\"\n" + probe("1 + 1"))]
+    for t in list(TYPES) + list(ALIAS_TYPES):
+        out.append(("control|declaration|%s" % t, PRE + decl(t, "a", 0) + "\n" + decl(t, "b", 1) + "\nprint \"@run\"\n" + probe("1 + 1")))
+    return out
+
+
 def enumerated(tier, seed):
-    cases = [{"name": n, "src": s} for n, s in cell_programs() + position_programs() + builtin_programs()]
+    cases = [{"name": n, "src": s} for n, s in control_programs() + cell_programs() + position_programs() + builtin_programs()]
     for item in catalogue():
         cases.append({"name": item[0], "src": item[1], "files": item[2] if len(item) > 2 else None})
     return cases
